@@ -1,2 +1,230 @@
--- stub: replaced by the slice's driver
-def main : IO Unit := IO.println "stub"
+import TriompheModel.Model.Cmp
+/-!
+# `drv_cmp` — line-protocol driver of model M5 (C14)
+
+One answer line per input line.
+
+```
+C sliceEqViaNe=<0|1>                                    -> ok        (calibrated `core` behaviour)
+T eq=<bits> ne= lt= le= gt= ge= pc=<LEGN..> cm=<LEG..> hs=<hex>/<hex>/.. db=<s>/<s>/.. dp=<s>/..
+                                                        -> ok        (tables of the scripted payload)
+Q <kind> <same|dist> <int|flt|tab> <A> <B>              -> R|eq=..|ne=..|lt=..|le=..|gt=..|ge=..|pc=..|cm=..|ha=..|hb=..|da=..|db=..|pa=..|pb=..
+M <int> <arc|hs> <key>.. ? <probe>..                     -> M|h=<i or ->,..|b=..|br=1|ar=1
+```
+kinds: `arc offset borrow u11 u12 u21 u22 thin hs hswl prot slice`.  A value is `<elem>` for the
+scalar kinds and `<header>:<e1>,<e2>,..|_:<recorded length>|=` for the header-slice kinds
+(`=` = the slice length).  `same`: the second handle is a clone of the first (B is ignored).
+Observers a kind/payload does not have print `-`.
+-/
+open Cmp
+
+namespace DrvCmp
+
+def hexDigit (n : Nat) : Char :=
+  if n < 10 then Char.ofNat (48 + n) else Char.ofNat (87 + n)
+
+def hex2 (n : Nat) : String :=
+  String.ofList [hexDigit (n / 16 % 16), hexDigit (n % 16)]
+
+def fmtBool (b : Bool) : String := if b then "1" else "0"
+
+def fmtPO : Option Ordering → String
+  | none => "N"
+  | some .lt => "L"
+  | some .eq => "E"
+  | some .gt => "G"
+
+def fmtHash (l : List Nat) : String :=
+  if l.isEmpty then "_" else String.join (l.map hex2)
+
+/-- all eleven observations of `Q` on `(x, y)`, `-` for those not in `tr` -/
+def render {β : Type} (Q : PayloadOps β) (tr : List Observer) (x y : β) : String :=
+  let on (o : Observer) (s : Unit → String) : String := if tr.contains o then s () else "-"
+  "R|eq=" ++ on .eq (fun _ => fmtBool (Q.eq x y)) ++
+  "|ne=" ++ on .ne (fun _ => fmtBool (Q.ne x y)) ++
+  "|lt=" ++ on .lt (fun _ => fmtBool (Q.lt x y)) ++
+  "|le=" ++ on .le (fun _ => fmtBool (Q.le x y)) ++
+  "|gt=" ++ on .gt (fun _ => fmtBool (Q.gt x y)) ++
+  "|ge=" ++ on .ge (fun _ => fmtBool (Q.ge x y)) ++
+  "|pc=" ++ on .partialCmp (fun _ => fmtPO (Q.partialCmp x y)) ++
+  "|cm=" ++ on .cmp (fun _ => fmtPO (some (Q.cmp x y))) ++
+  "|ha=" ++ on .hash (fun _ => fmtHash (Q.hash x)) ++
+  "|hb=" ++ on .hash (fun _ => fmtHash (Q.hash y)) ++
+  "|da=" ++ on .debug (fun _ => Q.debug x) ++
+  "|db=" ++ on .debug (fun _ => Q.debug y) ++
+  "|pa=" ++ on .display (fun _ => Q.display x) ++
+  "|pb=" ++ on .display (fun _ => Q.display y)
+
+/-- a payload domain: its operators, how to read an element, which observers the payload type has -/
+structure Dom (α : Type) where
+  ops : PayloadOps α
+  parse : String → Option α
+  traits : List Observer
+
+structure Val (α : Type) where
+  h : α
+  s : List α
+  len : Nat
+  scalar : Bool
+
+def parseVal {α : Type} (pe : String → Option α) (str : String) : Option (Val α) :=
+  match str.splitOn ":" with
+  | [h] => (pe h).map fun v => ⟨v, [], 0, true⟩
+  | [h, es, l] => do
+    let hv ← pe h
+    let xs ← if es == "_" then some [] else (es.splitOn ",").mapM pe
+    let n ← if l == "=" then some xs.length else l.toNat?
+    pure ⟨hv, xs, n, false⟩
+  | _ => none
+
+def meet (a b : List Observer) : List Observer := a.filter b.contains
+
+def answerQ {α : Type} (c : StdCfg) (D : Dom α) (kind : String) (same : Bool) (a b : Val α) : String :=
+  let P := D.ops
+  let b := if same then a else b
+  let i : Nat := 0
+  let j : Nat := if same then 0 else 1
+  let S := sliceOps c P
+  match kind with
+  | "arc" => render (arcOps P) (meet Kind.arc.traits D.traits) ⟨i, a.h⟩ ⟨j, b.h⟩
+  | "offset" => render (offsetOps P) (meet Kind.offset.traits D.traits) ⟨i, a.h⟩ ⟨j, b.h⟩
+  | "borrow" => render (borrowOps P) (meet Kind.borrow.traits D.traits) ⟨i, a.h⟩ ⟨j, b.h⟩
+  | "u11" => render (unionOps P P) (meet Kind.union.traits D.traits) (.first ⟨i, a.h⟩) (.first ⟨j, b.h⟩)
+  | "u12" => render (unionOps P P) (meet Kind.union.traits D.traits) (.first ⟨i, a.h⟩) (.second ⟨j, b.h⟩)
+  | "u21" => render (unionOps P P) (meet Kind.union.traits D.traits) (.second ⟨i, a.h⟩) (.first ⟨j, b.h⟩)
+  | "u22" => render (unionOps P P) (meet Kind.union.traits D.traits) (.second ⟨i, a.h⟩) (.second ⟨j, b.h⟩)
+  | "thin" => render (thinOps c P P) (meet Kind.thin.traits D.traits)
+      ⟨i, ⟨⟨a.h, a.s.length⟩, a.s⟩⟩ ⟨j, ⟨⟨b.h, b.s.length⟩, b.s⟩⟩
+  | "hs" => render (arcOps (hsOps P S)) (meet Kind.hs.traits D.traits) ⟨i, ⟨a.h, a.s⟩⟩ ⟨j, ⟨b.h, b.s⟩⟩
+  | "hswl" => render (arcOps (hswlOps P S)) (meet Kind.hswl.traits D.traits)
+      ⟨i, ⟨⟨a.h, a.len⟩, a.s⟩⟩ ⟨j, ⟨⟨b.h, b.len⟩, b.s⟩⟩
+  | "prot" => render (arcOps (protOps c P P)) (meet Kind.prot.traits D.traits)
+      ⟨i, ⟨⟨⟨a.h, a.s.length⟩, a.s⟩⟩⟩ ⟨j, ⟨⟨⟨b.h, b.s.length⟩, b.s⟩⟩⟩
+  | "slice" => render (arcOps S) (meet Kind.slice.traits D.traits) ⟨i, a.s⟩ ⟨j, b.s⟩
+  | _ => "bad"
+
+def fmtOptNat : Option Nat → String
+  | none => "-"
+  | some n => toString n
+
+/-- `M`: insert the keys (each in its own allocation) with their index as value, then probe -/
+def answerM {κ : Type} (Q : PayloadOps κ) (keys probes : List κ) : String :=
+  let idx := (List.range keys.length).zip keys
+  let hm := idx.foldl (fun m (e : Nat × κ) => hmInsert Q m ⟨e.1, e.2⟩ e.1) []
+  let bt := idx.foldl (fun m (e : Nat × κ) => btInsert Q m ⟨e.1, e.2⟩ e.1) []
+  "M|h=" ++ ",".intercalate (probes.map fun p => fmtOptNat (hmGet Q hm p)) ++
+  "|b=" ++ ",".intercalate (probes.map fun p => fmtOptNat (btGet Q bt p)) ++
+  "|br=1|ar=1"
+
+def intDom : Dom Int := ⟨intOps, String.toInt?, Observer.all⟩
+
+def parseFlt (s : String) : Option Flt :=
+  if s == "nan" then some .nan else if s == "nz" then some .nzero else s.toInt?.map .num
+
+def fltDom : Dom Flt :=
+  ⟨fltOps, parseFlt, [.eq, .ne, .lt, .le, .gt, .ge, .partialCmp, .debug, .display]⟩
+
+def tabDom (t : Tables) : Dom Nat := ⟨tabOps t, String.toNat?, Observer.all⟩
+
+def emptyTables : Tables := ⟨0, [], [], [], [], [], [], [], [], [], [], []⟩
+
+def parseBits (s : String) : List Bool := s.toList.map (· == '1')
+
+def parsePO (s : String) : List (Option Ordering) :=
+  s.toList.map fun ch => if ch == 'L' then some .lt else if ch == 'E' then some .eq else if ch == 'G' then some .gt else none
+
+def parseO (s : String) : List Ordering :=
+  s.toList.map fun ch => if ch == 'L' then .lt else if ch == 'G' then .gt else .eq
+
+def hexVal (ch : Char) : Nat :=
+  if ch.isDigit then ch.toNat - 48 else ch.toNat - 87
+
+def parseHex : List Char → List Nat
+  | a :: b :: rest => (hexVal a * 16 + hexVal b) :: parseHex rest
+  | _ => []
+
+def parseHashes (s : String) : List (List Nat) :=
+  (s.splitOn "/").map fun e => if e == "_" then [] else parseHex e.toList
+
+def field (kvs : List (String × String)) (k : String) : String :=
+  match kvs.find? (·.1 == k) with
+  | some kv => kv.2
+  | none => ""
+
+def parseTables (toks : List String) : Tables :=
+  let kvs := toks.filterMap fun t =>
+    match t.splitOn "=" with
+    | [k, v] => some (k, v)
+    | _ => none
+  let hs := parseHashes (field kvs "hs")
+  { n := hs.length
+    eq := parseBits (field kvs "eq"), ne := parseBits (field kvs "ne")
+    lt := parseBits (field kvs "lt"), le := parseBits (field kvs "le")
+    gt := parseBits (field kvs "gt"), ge := parseBits (field kvs "ge")
+    pc := parsePO (field kvs "pc"), cm := parseO (field kvs "cm")
+    hs := hs, db := (field kvs "db").splitOn "/", dp := (field kvs "dp").splitOn "/" }
+
+structure St where
+  cfg : StdCfg
+  tab : Tables
+
+def doQ (st : St) (kind alloc dom a b : String) : String :=
+  let same := alloc == "same"
+  if alloc != "same" && alloc != "dist" then "bad" else
+  match dom with
+  | "int" =>
+    match parseVal intDom.parse a, parseVal intDom.parse b with
+    | some x, some y => answerQ st.cfg intDom kind same x y
+    | _, _ => "bad"
+  | "flt" =>
+    match parseVal fltDom.parse a, parseVal fltDom.parse b with
+    | some x, some y => answerQ st.cfg fltDom kind same x y
+    | _, _ => "bad"
+  | "tab" =>
+    let D := tabDom st.tab
+    match parseVal D.parse a, parseVal D.parse b with
+    | some x, some y => answerQ st.cfg D kind same x y
+    | _, _ => "bad"
+  | _ => "bad"
+
+def splitAt? (toks : List String) : List String × List String :=
+  (toks.takeWhile (· != "?"), (toks.dropWhile (· != "?")).drop 1)
+
+def doM (st : St) (dom kind : String) (rest : List String) : String :=
+  if dom != "int" then "bad" else
+  let (ks, ps) := splitAt? rest
+  match ks.mapM (parseVal intDom.parse), ps.mapM (parseVal intDom.parse) with
+  | some keys, some probes =>
+    match kind with
+    | "arc" => answerM intOps (keys.map (·.h)) (probes.map (·.h))
+    | "hs" =>
+      answerM (hsOps intOps (sliceOps st.cfg intOps))
+        (keys.map fun v => ⟨v.h, v.s⟩) (probes.map fun v => ⟨v.h, v.s⟩)
+    | _ => "bad"
+  | _, _ => "bad"
+
+def step (st : St) (line : String) : St × String :=
+  match line.trimAscii.toString.splitOn " " with
+  | ["C", kv] =>
+    match kv.splitOn "=" with
+    | ["sliceEqViaNe", v] => ({ st with cfg := { sliceEqViaNe := v == "1" } }, "ok")
+    | _ => (st, "bad")
+  | "T" :: toks => ({ st with tab := parseTables toks }, "ok")
+  | ["Q", kind, alloc, dom, a, b] => (st, doQ st kind alloc dom a b)
+  | "M" :: dom :: kind :: rest => (st, doM st dom kind rest)
+  | _ => (st, "bad")
+
+partial def loop (hin hout : IO.FS.Stream) (st : St) : IO Unit := do
+  let line ← hin.getLine
+  if line.isEmpty then pure () else
+    let (st', out) := step st line
+    hout.putStrLn out
+    loop hin hout st'
+
+end DrvCmp
+
+def main : IO Unit := do
+  let hin ← IO.getStdin
+  let hout ← IO.getStdout
+  DrvCmp.loop hin hout ⟨{}, DrvCmp.emptyTables⟩
+  hout.flush
